@@ -25,7 +25,7 @@ pub fn def() -> PropDef {
 fn streams(t: Tier) -> Vec<StreamDef> {
     let n = t.n(65536, 65536, 50, 65536);
     let ex = t != Tier::Miri;
-    vec![st("message_type", n, ex), st("error_type", n, ex), st("proxy_type", n, ex), st("result_code", n, ex), st("attribute_type", n, ex), st("named_values", 14 + 9 + 6 + 8 + 12, true), st("deep_position", t.n(120, 1200, 0, 120), false)]
+    vec![st("message_type", n, ex), st("error_type", n, ex), st("proxy_type", n, ex), st("result_code", n, ex), st("attribute_type", n, ex), st("named_values", 14 + 9 + 6 + 8 + 12, true), st("deep_position", t.n(120, 1200, 0, 120), false), st("context_grid", t.n(context_grid_count(), context_grid_count(), 60, 200_000), t != Tier::Miri && t != Tier::San)]
 }
 
 fn floors(t: Tier) -> Vec<(String, u64)> {
@@ -199,7 +199,88 @@ fn injective(ctx: &mut Ctx, field: &str, value_key: String, x: u16) {
     }
 }
 
+/// Error-type values tried in every context: the assigned ones and their surroundings, every
+/// multiple of 256 (a value whose low octet looks assigned), the usual boundaries, source literals.
+fn error_values() -> &'static Vec<u16> {
+    static V: std::sync::OnceLock<Vec<u16>> = std::sync::OnceLock::new();
+    V.get_or_init(|| {
+        let mut v: Vec<u16> = (0..=300u16).collect();
+        for k in 1..=255u16 {
+            v.push(k << 8);
+            v.push((k << 8) | (k % 9));
+        }
+        v.extend_from_slice(&[0x7fff, 0x8000, 0x8001, 0xfffe, 0xffff, 0x0808, 0x0108, 0x0109]);
+        v.extend(crate::gen::dict::ints_upto(0xffff).iter().map(|x| *x as u16));
+        v.sort_unstable();
+        v.dedup();
+        v
+    })
+}
+
+const RESULT_CODES: [u16; 16] = [0, 1, 2, 3, 4, 5, 6, 7, 8, 9, 10, 11, 12, 256, 0x0102, 0xffff];
+
+/// An enumerated field must be judged the same whatever the message around it says: for each of
+/// the 14 message types as first AVP - (a) every value of the proxy authen type, (b) every value
+/// of a second Message Type AVP, (c) result code x error type over `error_values`, with and
+/// without an error message.
+fn context_grid_count() -> u64 {
+    14 * (65536 + 65536 + (RESULT_CODES.len() * error_values().len() * 2) as u64)
+}
+
+fn context_case(ctx: &mut Ctx) {
+    let total = context_grid_count();
+    let idx = if ctx.tier == Tier::Miri || ctx.tier == Tier::San { ctx.rng.below(total) } else { ctx.idx % total };
+    let mt = MESSAGE_TYPES[(idx % 14) as usize].0;
+    let rest = idx / 14;
+    let (field, rec) = if rest < 65536 {
+        let x = rest as u16;
+        ("proxy_type", wire::raw_record(29, false, 0, &[(x >> 8) as u8, x as u8], true))
+    } else if rest < 131072 {
+        let x = (rest - 65536) as u16;
+        ("message_type", wire::raw_record(0, false, 0, &[(x >> 8) as u8, x as u8], true))
+    } else {
+        let k = (rest - 131072) as usize;
+        let ev = error_values();
+        let e = ev[k % ev.len()];
+        let code = RESULT_CODES[(k / ev.len()) % RESULT_CODES.len()];
+        let with_msg = (k / ev.len() / RESULT_CODES.len()) % 2 == 1;
+        let mut p = vec![(code >> 8) as u8, code as u8, (e >> 8) as u8, e as u8];
+        if with_msg {
+            p.extend_from_slice(b"try later");
+        }
+        ("error_type", wire::raw_record(1, false, 0, &p, true))
+    };
+    let mut body = wire::message_type_record(mt);
+    // sometimes other AVPs sit between the message type and the field
+    if idx % 5 == 0 {
+        body.extend_from_slice(&wire::raw_record(9, false, 0, &[0x12, 0x34], true));
+    }
+    body.extend_from_slice(&rec);
+    let msg = wire::control_around(&body, 1, 2, 3, 4);
+    ctx.rep.case(format!("ctx:{}", idx).as_bytes(), true);
+    ctx.rep.bucket("context_grid.checked");
+    let spec = crate::spec::decode::decode(&msg, SOpts::STRICT);
+    let run = exec::decode_msg(&msg, Some(SOpts::STRICT), Rk::Slice);
+    let class = match (&spec.result, &run.out) {
+        (Ok(a), Out::Ok(b)) if a == b => return,
+        (Err(_), Out::Err(_)) => return,
+        (Ok(_), Out::Ok(_)) => "value-differs",
+        (Ok(_), Out::Err(_)) => "assigned-rejected",
+        (Err(_), Out::Ok(_)) => "unassigned-accepted",
+        (_, other) => other.class(),
+    };
+    ctx.violate(
+        format!("C16:{}:context-dependent:{}", field, class),
+        format!("in a message whose first AVP is Message Type {}, the record {} decodes as {}; the assigned code points do not depend on the message around the field", mt, crate::report::hex(&rec), out_str(&run.out)),
+        w_input(&msg, Some(SOpts::STRICT)),
+    );
+}
+
 fn run(ctx: &mut Ctx) {
+    if ctx.stream == "context_grid" {
+        context_case(ctx);
+        return;
+    }
     let x = if ctx.tier == Tier::Miri { ctx.rng.u16b() } else { ctx.idx as u16 };
     match ctx.stream {
         "message_type" => {
